@@ -1,8 +1,8 @@
 /-
 C03 — the name-space invariant: `_ids` holds exactly the declared names (as a multiset), no name twice, never
-"time"; every public mutator keeps it, and a rejected non-plural mutator leaves content and ids untouched.
+"time"; every public mutator keeps it, and a rejected mutator (singular, composite or plural) leaves content and ids untouched.
 The generated table enters through `table_add_order`, `table_remove_order`, `table_*_checks`,
-`table_remove_variable_first`.
+`table_remove_variable_first`, `table_plural_checks`, `table_scale_parameters_delegates`.
 -/
 import MxlVerif.Lemmas.C03Cache
 namespace Mxl.C03
@@ -519,30 +519,33 @@ theorem ensureCache_same (s : State) : Same s (ensureCache s).1 := by
   · exact Same.refl s
   · split <;> exact ⟨rfl, rfl⟩
 
+theorem scaledValue_same (n f) (s : State) : Same s (scaledValue n f s).1 := by
+  unfold scaledValue
+  split
+  · exact Same.refl s
+  · exact Same.refl s
+  · have h1 := ensureCache_same s
+    split
+    · rename_i s1 e heq; rw [heq] at h1; exact h1
+    · rename_i s1 c heq
+      rw [heq] at h1
+      split <;> exact h1
+
 theorem scaleParameter_good (n f) : Good (scaleParameter n f) := by
   intro s hs
   have hsame := inval_same .scale_parameter s
-  have hs0 := exact_of_same hsame hs
+  have h1 := scaledValue_same n f (inval .scale_parameter s)
+  have hs1 := exact_of_same (hsame.trans h1) hs
   unfold scaleParameter
   simp only
   split
-  · exact ⟨hs0, fun e _ => hsame⟩
-  · rename_i old _
-    have := updateParameter_good n (some (.plain (old * f))) _ hs0
-    exact ⟨this.1, fun e he => hsame.trans (this.2 e he)⟩
-  · have h1 := ensureCache_same (inval .scale_parameter s)
-    have hs1 := exact_of_same h1 hs0
-    split
-    · rename_i s1 e heq
-      rw [heq] at h1 hs1
-      exact ⟨hs1, fun e _ => hsame.trans h1⟩
-    · rename_i s1 c heq
-      rw [heq] at h1 hs1
-      split
-      · exact ⟨hs1, fun e _ => hsame.trans h1⟩
-      · rename_i v _
-        have := updateParameter_good n (some (.plain (v * f))) s1 hs1
-        exact ⟨this.1, fun e he => (hsame.trans h1).trans (this.2 e he)⟩
+  · rename_i s1 e heq
+    rw [heq] at h1 hs1
+    exact ⟨hs1, fun e _ => hsame.trans h1⟩
+  · rename_i s1 v heq
+    rw [heq] at h1 hs1
+    have := updateParameter_good n (some (.plain v)) s1 hs1
+    exact ⟨this.1, fun e he => (hsame.trans h1).trans (this.2 e he)⟩
 
 theorem omInsert_of_not_mem {β} {m : List (Name × β)} {n : Name} (v : β) (h : n ∉ omKeys m) :
     omInsert m n v = m ++ [(n, v)] := by
@@ -1338,24 +1341,286 @@ theorem makeParameterDynamic_good (n iv st) : Good (makeParameterDynamic n iv st
 
 /-! ### all ops -/
 
-theorem step_good (op : Op) (hp : op.plural = false) : Good (fun s => step s op) := by
+/-! ### plural forms: validate every name, then apply — a rejected call changes nothing -/
+
+theorem checkKnown_ok_iff (keys seen l : List Name) :
+    checkKnown keys seen l = .ok () ↔ (∀ x ∈ l, x ∈ keys ∧ x ∉ seen) ∧ l.Nodup := by
+  induction l generalizing seen with
+  | nil => simp [checkKnown]
+  | cons n rest ih =>
+    simp only [checkKnown]
+    by_cases h1 : n ∈ keys
+    · by_cases h2 : n ∈ seen
+      · simp [h1, h2]
+      · have hc : (!keys.contains n || seen.contains n) = false := by simp [h1, h2]
+        simp only [hc, Bool.false_eq_true, if_false]
+        rw [ih]
+        simp only [List.mem_cons, List.nodup_cons]
+        constructor
+        · rintro ⟨h3, h4⟩
+          refine ⟨?_, ?_, h4⟩
+          · intro x hx
+            rcases hx with rfl | hx
+            · exact ⟨h1, h2⟩
+            · exact ⟨(h3 x hx).1, fun hm => (h3 x hx).2 (Or.inr hm)⟩
+          · intro hm
+            exact (h3 n hm).2 (Or.inl rfl)
+        · rintro ⟨h3, h4, h5⟩
+          refine ⟨?_, h5⟩
+          intro x hx
+          refine ⟨(h3 x (Or.inr hx)).1, ?_⟩
+          rintro (rfl | hm)
+          · exact h4 hx
+          · exact (h3 x (Or.inr hx)).2 hm
+    · simp [h1]
+
+theorem except_unit_cases (r : Except Err Unit) : r = .ok () ∨ ∃ e, r = .error e := by
+  cases r with
+  | ok u => exact Or.inl rfl
+  | error e => exact Or.inr ⟨e, rfl⟩
+
+/-- a loop whose every round is accepted as long as an invariant `P` of (remaining elements, state) holds -/
+theorem foldOps_ok {α} (f : α → State → State × Res) (P : List α → State → Prop)
+    (hstep : ∀ a rest s, P (a :: rest) s → (f a s).2 = .ok () ∧ P rest (f a s).1) :
+    ∀ l s, P l s → ∃ s', foldOps f l s = (s', .ok ()) ∧ P [] s' := by
+  intro l
+  induction l with
+  | nil => intro s h; exact ⟨s, rfl, h⟩
+  | cons a rest ih =>
+    intro s h
+    obtain ⟨h1, hp1⟩ := hstep a rest s h
+    obtain ⟨s', h2, hp2⟩ := ih _ hp1
+    have h1' : f a s = ((f a s).1, .ok ()) := by
+      rw [← h1]
+    exact ⟨s', by simp only [foldOps]; rw [h1', andThen_ok, h2], hp2⟩
+
+theorem pluralOp_good {α} {m : Gen.Mut} (hm : Gen.checksBeforeWrites m ≥ 1) (chk : State → Except Err Unit)
+    (f : α → State → State × Res) (l : List α)
+    (hok : ∀ s0, Exact s0 → chk s0 = .ok () → ∃ s', foldOps f l s0 = (s', .ok ()) ∧ Exact s') :
+    Good (pluralOp m chk f l) := by
+  intro s hs
+  have hsame := inval_same m s
+  have hs0 := exact_of_same hsame hs
+  unfold pluralOp
+  simp only [hm, if_true]
+  rcases except_unit_cases (chk (inval m s)) with hc | ⟨e, hc⟩
+  · rw [hc]
+    obtain ⟨s', h1, h2⟩ := hok _ hs0 hc
+    simp only [h1]
+    exact ⟨h2, fun e he => by cases he⟩
+  · rw [hc]
+    simp only [fail]
+    exact ⟨hs0, fun e _ => hsame⟩
+
+theorem table_plural_checks (m : Gen.Mut)
+    (h : m ∈ [Gen.Mut.add_parameters, .remove_parameters, .update_parameters, .add_variables, .remove_variables,
+              .update_variables]) : Gen.checksBeforeWrites m ≥ 1 := by
+  simp at h
+  rcases h with h | h | h | h | h | h <;> subst h <;> decide
+
+theorem table_scale_parameters_delegates : Gen.delegates .scale_parameters = [.update_parameters] := rfl
+
+/-- the adds of one container after `_check_new_ids` accepted all names -/
+theorem addMany_ok {β} {m : Gen.Mut} (hm : Gen.idOrder m = .idFirst) {L : Lens β} (hL : LensLaw L) (k : Kind)
+    (l : List (Name × β)) (s0 : State) (hs0 : Exact s0)
+    (hc : checkNewIds (omKeys s0.ids) (l.map (·.1)) = .ok ()) :
+    ∃ s', foldOps (fun kv s => addG m L k kv.1 kv.2 (inval m s)) l s0 = (s', .ok ()) ∧ Exact s' := by
+  obtain ⟨hfresh, hnd⟩ := (checkNewIds_ok_iff _ _).mp hc
+  have := foldOps_ok (fun (kv : Name × β) s => addG m L k kv.1 kv.2 (inval m s))
+    (fun (l : List (Name × β)) s =>
+      Exact s ∧ (∀ x ∈ l.map (·.1), x ≠ "time" ∧ x ∉ omKeys s.ids) ∧ (l.map (·.1)).Nodup)
+    (by
+      intro a rest s ⟨hs, hf, hn⟩
+      have ha := hf a.1 (by simp)
+      simp only [List.map_cons, List.nodup_cons] at hn
+      have hs1 := exact_of_same (inval_same m s) hs
+      have h2' : a.1 ∉ omKeys (inval m s).ids := by rw [inval_ids]; exact ha.2
+      show (addG m L k a.1 a.2 (inval m s)).2 = .ok () ∧ _
+      rw [addG_closed hm]
+      simp only [ha.1, h2', if_false]
+      refine ⟨trivial, ?_, ?_, hn.2⟩
+      · exact exact_add hL hs1 k a.2 ha.1 h2'
+      · intro x hx
+        refine ⟨(hf x (by simp [hx])).1, ?_⟩
+        show x ∉ omKeys ((inval m s).ids ++ [(a.1, k)])
+        rw [inval_ids]
+        simp only [omKeys_append, omKeys_cons, omKeys_nil, List.mem_append, List.mem_singleton]
+        rintro (hm2 | rfl)
+        · exact (hf x (by simp [hx])).2 hm2
+        · exact hn.1 hx)
+    l s0 ⟨hs0, hfresh, hnd⟩
+  obtain ⟨s', h1, h2⟩ := this
+  exact ⟨s', h1, h2.1⟩
+
+theorem addParameters_good (l) : Good (addParameters l) :=
+  pluralOp_good (table_plural_checks _ (by simp)) _ _ l
+    (fun s0 hs0 hc => addMany_ok (table_add_order .add_parameter (by simp)) parsL_law "parameter" l s0 hs0 hc)
+
+theorem addVariables_good (l) : Good (addVariables l) :=
+  pluralOp_good (table_plural_checks _ (by simp)) _ _ l
+    (fun s0 hs0 hc => addMany_ok (table_add_order .add_variable (by simp)) varsL_law "variable" l s0 hs0 hc)
+
+theorem mem_omKeys_omErase {β} (m : List (Name × β)) {x n : Name} (hne : x ≠ n) (hx : x ∈ omKeys m) :
+    x ∈ omKeys (omErase m n) := by
+  have := count_omKeys_omErase m n x
+  simp only [hne, if_false] at this
+  exact List.count_pos_iff.mp (by rw [this]; exact List.count_pos_iff.mpr hx)
+
+theorem removeParameters_good (l) : Good (removeParameters l) := by
+  refine pluralOp_good (table_plural_checks _ (by simp)) _ _ l ?_
+  intro s0 hs0 hc
+  obtain ⟨hin, hnd⟩ := (checkKnown_ok_iff _ _ _).mp hc
+  have := foldOps_ok removeParameter
+    (fun l s => Exact s ∧ (∀ x ∈ l, x ∈ omKeys s.content.pars) ∧ l.Nodup)
+    (by
+      intro a rest s ⟨hs, hf, hn⟩
+      simp only [List.nodup_cons] at hn
+      have hs1 := exact_of_same (inval_same .remove_parameter s) hs
+      have hmem : a ∈ omKeys (parsL.get (inval .remove_parameter s).content) := by
+        rw [inval_content]; exact hf a (by simp)
+      have hc : removeParameter a s = _ :=
+        removeG_closed (table_remove_order .remove_parameter (by simp)) parsL_law a hs1
+      simp only [hmem, if_true] at hc
+      rw [hc]
+      refine ⟨rfl, exact_remove parsL_law hs1 hmem, ?_, hn.2⟩
+      intro x hx
+      show x ∈ omKeys (omErase (inval .remove_parameter s).content.pars a)
+      rw [inval_content]
+      exact mem_omKeys_omErase _ (fun e => hn.1 (e ▸ hx)) (hf x (by simp [hx])))
+    l s0 ⟨hs0, fun x hx => (hin x hx).1, hnd⟩
+  obtain ⟨s', h1, h2⟩ := this
+  exact ⟨s', h1, h2.1⟩
+
+theorem removeVariables_good (l rs) : Good (removeVariables l rs) := by
+  refine pluralOp_good (table_plural_checks _ (by simp)) _ _ l ?_
+  intro s0 hs0 hc
+  obtain ⟨hin, hnd⟩ := (checkKnown_ok_iff _ _ _).mp hc
+  have := foldOps_ok (fun n => removeVariable n rs)
+    (fun l s => Exact s ∧ (∀ x ∈ l, x ∈ omKeys s.content.vars) ∧ l.Nodup)
+    (by
+      intro a rest s ⟨hs, hf, hn⟩
+      simp only [List.nodup_cons] at hn
+      have hmem : a ∈ omKeys (inval .remove_variable s).content.vars := by
+        rw [inval_content]; exact hf a (by simp)
+      have hc := removeVariable_closed a rs hs
+      simp only [hmem, if_true] at hc
+      have hg := (removeVariable_good a rs s hs).1
+      rw [hc] at hg ⊢
+      refine ⟨rfl, hg, ?_, hn.2⟩
+      intro x hx
+      have hx1 : x ∈ omKeys (omErase (inval .remove_variable s).content.vars a) := by
+        rw [inval_content]
+        exact mem_omKeys_omErase _ (fun e => hn.1 (e ▸ hx)) (hf x (by simp [hx]))
+      cases rs
+      · exact hx1
+      · exact hx1)
+    l s0 ⟨hs0, fun x hx => (hin x hx).1, hnd⟩
+  obtain ⟨s', h1, h2⟩ := this
+  exact ⟨s', h1, h2.1⟩
+
+theorem updateParameters_good (l) : Good (updateParameters l) := by
+  refine pluralOp_good (table_plural_checks _ (by simp)) _ _ l ?_
+  intro s0 hs0 hc
+  obtain ⟨hin, _⟩ := (checkKnown_ok_iff _ _ _).mp hc
+  have := foldOps_ok (fun kv : Name × Val => updateParameter kv.1 (some kv.2))
+    (fun l s => Exact s ∧ ∀ x ∈ l.map (·.1), x ∈ omKeys s.content.pars)
+    (by
+      intro a rest s ⟨hs, hf⟩
+      have hs1 := exact_of_same (inval_same .update_parameter s) hs
+      have hmem : a.1 ∈ omKeys (inval .update_parameter s).content.pars := by
+        rw [inval_content]; exact hf a.1 (by simp)
+      have hu : updateParameter a.1 (some a.2) s = putG parsL a.1 a.2 (inval .update_parameter s) := by
+        unfold updateParameter
+        simp only [List.contains_iff_mem, hmem, if_true]
+      rw [hu]
+      refine ⟨rfl, ?_, ?_⟩
+      · exact exact_put_mem parsL_law hs1 a.2 hmem
+      · intro x hx
+        show x ∈ omKeys (omInsert (inval .update_parameter s).content.pars a.1 a.2)
+        rw [omKeys_omInsert_of_mem _ _ _ hmem, inval_content]
+        exact hf x (by simp at hx ⊢; exact Or.inr hx))
+    l s0 ⟨hs0, fun x hx => (hin x hx).1⟩
+  obtain ⟨s', h1, h2⟩ := this
+  exact ⟨s', h1, h2.1⟩
+
+theorem updateVariables_good (l) : Good (updateVariables l) := by
+  refine pluralOp_good (table_plural_checks _ (by simp)) _ _ l ?_
+  intro s0 hs0 hc
+  obtain ⟨hin, _⟩ := (checkKnown_ok_iff _ _ _).mp hc
+  have := foldOps_ok (fun kv : Name × Val => updateVariable kv.1 kv.2)
+    (fun l s => Exact s ∧ ∀ x ∈ l.map (·.1), x ∈ omKeys s.content.vars)
+    (by
+      intro a rest s ⟨hs, hf⟩
+      have hs1 := exact_of_same (inval_same .update_variable s) hs
+      have hmem : a.1 ∈ omKeys (inval .update_variable s).content.vars := by
+        rw [inval_content]; exact hf a.1 (by simp)
+      have hu : updateVariable a.1 a.2 s = putG varsL a.1 a.2 (inval .update_variable s) := by
+        unfold updateVariable
+        simp only [List.contains_iff_mem, hmem, if_true]
+      rw [hu]
+      refine ⟨rfl, ?_, ?_⟩
+      · exact exact_put_mem varsL_law hs1 a.2 hmem
+      · intro x hx
+        show x ∈ omKeys (omInsert (inval .update_variable s).content.vars a.1 a.2)
+        rw [omKeys_omInsert_of_mem _ _ _ hmem, inval_content]
+        exact hf x (by simp at hx ⊢; exact Or.inr hx))
+    l s0 ⟨hs0, fun x hx => (hin x hx).1⟩
+  obtain ⟨s', h1, h2⟩ := this
+  exact ⟨s', h1, h2.1⟩
+
+theorem scaledValues_same (l : List (Name × Rat)) : ∀ (s : State), Same s (scaledValues l s).1 := by
+  induction l with
+  | nil => intro s; exact Same.refl s
+  | cons a rest ih =>
+    intro s
+    obtain ⟨n, f⟩ := a
+    have h1 := scaledValue_same n f s
+    simp only [scaledValues]
+    split
+    · rename_i s1 e heq; rw [heq] at h1; exact h1
+    · rename_i s1 v heq
+      rw [heq] at h1
+      have h2 := ih s1
+      split
+      · rename_i s2 e heq2; rw [heq2] at h2; exact h1.trans h2
+      · rename_i s2 vs heq2; rw [heq2] at h2; exact h1.trans h2
+
+theorem scaleParameters_good (l) : Good (scaleParameters l) := by
+  intro s hs
+  have hsame := inval_same .scale_parameters s
+  have h1 := scaledValues_same l (inval .scale_parameters s)
+  have hs1 := exact_of_same (hsame.trans h1) hs
+  unfold scaleParameters
+  simp only [table_scale_parameters_delegates, if_true]
+  split
+  · rename_i s1 e heq
+    rw [heq] at h1 hs1
+    exact ⟨hs1, fun e _ => hsame.trans h1⟩
+  · rename_i s1 vs heq
+    rw [heq] at h1 hs1
+    have := updateParameters_good vs s1 hs1
+    exact ⟨this.1, fun e he => (hsame.trans h1).trans (this.2 e he)⟩
+
+/-! ### all ops -/
+
+theorem step_good (op : Op) : Good (fun s => step s op) := by
   cases op with
   | add_parameter n v => exact addParameter_good n v
   | remove_parameter n => exact removeParameter_good n
   | update_parameter n v => exact updateParameter_good n v
   | scale_parameter n f => exact scaleParameter_good n f
   | make_parameter_dynamic n iv st => exact makeParameterDynamic_good n iv st
-  | add_parameters l => cases hp
-  | remove_parameters l => cases hp
-  | update_parameters l => cases hp
-  | scale_parameters l => cases hp
+  | add_parameters l => exact addParameters_good l
+  | remove_parameters l => exact removeParameters_good l
+  | update_parameters l => exact updateParameters_good l
+  | scale_parameters l => exact scaleParameters_good l
   | add_variable n v => exact addVariable_good n v
   | remove_variable n rs => exact removeVariable_good n rs
   | update_variable n v => exact updateVariable_good n v
   | make_variable_static n v => exact makeVariableStatic_good n v
-  | add_variables l => cases hp
-  | remove_variables l rs => cases hp
-  | update_variables l => cases hp
+  | add_variables l => exact addVariables_good l
+  | remove_variables l rs => exact removeVariables_good l rs
+  | update_variables l => exact updateVariables_good l
   | add_derived n f => exact addDerived_good n f
   | update_derived n fn args => exact updateDerived_good n fn args
   | remove_derived n => exact removeDerived_good n
@@ -1371,45 +1636,8 @@ theorem step_good (op : Op) (hp : op.plural = false) : Good (fun s => step s op)
   | update_data n v => exact updateData_good n v
   | remove_data n => exact removeData_good n
 
-theorem step_exact (s : State) (op : Op) (hs : Exact s) : Exact (step s op).1 := by
-  cases op with
-  | add_parameters l =>
-    exact foldOps_exact _ (fun a => addParameter_good a.1 a.2) l _ (exact_of_same (inval_same _ s) hs)
-  | remove_parameters l =>
-    exact foldOps_exact _ (fun a => removeParameter_good a) l _ (exact_of_same (inval_same _ s) hs)
-  | update_parameters l =>
-    exact foldOps_exact _ (fun a => updateParameter_good a.1 (some a.2)) l _ (exact_of_same (inval_same _ s) hs)
-  | scale_parameters l =>
-    exact foldOps_exact _ (fun a => scaleParameter_good a.1 a.2) l _ (exact_of_same (inval_same _ s) hs)
-  | add_variables l =>
-    exact foldOps_exact _ (fun a => addVariable_good a.1 a.2) l _ (exact_of_same (inval_same _ s) hs)
-  | remove_variables l rs =>
-    exact foldOps_exact _ (fun a => removeVariable_good a rs) l _ (exact_of_same (inval_same _ s) hs)
-  | update_variables l =>
-    exact foldOps_exact _ (fun a => updateVariable_good a.1 a.2) l _ (exact_of_same (inval_same _ s) hs)
-  | add_parameter n v => exact (step_good (.add_parameter n v) rfl s hs).1
-  | remove_parameter n => exact (step_good (.remove_parameter n) rfl s hs).1
-  | update_parameter n v => exact (step_good (.update_parameter n v) rfl s hs).1
-  | scale_parameter n f => exact (step_good (.scale_parameter n f) rfl s hs).1
-  | make_parameter_dynamic n iv st => exact (step_good (.make_parameter_dynamic n iv st) rfl s hs).1
-  | add_variable n v => exact (step_good (.add_variable n v) rfl s hs).1
-  | remove_variable n rs => exact (step_good (.remove_variable n rs) rfl s hs).1
-  | update_variable n v => exact (step_good (.update_variable n v) rfl s hs).1
-  | make_variable_static n v => exact (step_good (.make_variable_static n v) rfl s hs).1
-  | add_derived n f => exact (step_good (.add_derived n f) rfl s hs).1
-  | update_derived n fn args => exact (step_good (.update_derived n fn args) rfl s hs).1
-  | remove_derived n => exact (step_good (.remove_derived n) rfl s hs).1
-  | add_reaction n r => exact (step_good (.add_reaction n r) rfl s hs).1
-  | update_reaction n fn args st => exact (step_good (.update_reaction n fn args st) rfl s hs).1
-  | remove_reaction n => exact (step_good (.remove_reaction n) rfl s hs).1
-  | add_readout n f => exact (step_good (.add_readout n f) rfl s hs).1
-  | remove_readout n => exact (step_good (.remove_readout n) rfl s hs).1
-  | add_surrogate n su => exact (step_good (.add_surrogate n su) rfl s hs).1
-  | update_surrogate n u => exact (step_good (.update_surrogate n u) rfl s hs).1
-  | remove_surrogate n => exact (step_good (.remove_surrogate n) rfl s hs).1
-  | add_data n v => exact (step_good (.add_data n v) rfl s hs).1
-  | update_data n v => exact (step_good (.update_data n v) rfl s hs).1
-  | remove_data n => exact (step_good (.remove_data n) rfl s hs).1
+theorem step_exact (s : State) (op : Op) (hs : Exact s) : Exact (step s op).1 :=
+  (step_good op s hs).1
 
 theorem query_same (s : State) (q : Query) : Same s (query s q).1 := by
   have h := ensureCache_same s
